@@ -382,6 +382,9 @@ class Oracle:
     def run(self):
         off = 0
         ndyn = 0
+        in_session = False
+        cursor = 0
+        self.overwrites = []   # (index, start, end) of session emissions
         defs_local = {}     # name -> [(index, off)]
         defs_global = {}    # name -> [(index, off)]
         defs_dyn = {}       # id -> [(index, off)]
@@ -398,22 +401,36 @@ class Oracle:
                     self.base = int(ws[3].split("=")[1])
                 continue
             bs = parse_emit(ws)
-            if bs is not None:
+            if bs is None and k == "al":
+                al, f = int(ws[1]), int(ws[2])
+                bs = bytes([f & 0xFF]) * align_pad(cursor if in_session else off, al)
+            if bs is not None and in_session:
+                if cursor + len(bs) > len(self.image):
+                    raise Unsupported("session emission past the end")
+                self.image[cursor:cursor + len(bs)] = bs
+                self.overwrites.append((i, cursor, cursor + len(bs)))
+                cursor += len(bs)
+            elif bs is not None:
                 self.image += bs
                 off += len(bs)
-            elif k == "al":
-                al, f = int(ws[1]), int(ws[2])
-                pad = align_pad(off, al)
-                self.image += bytes([f & 0xFF]) * pad
-                off += pad
+            elif k == "alter{":
+                commits.append(i)
+                in_session, cursor = True, 0
+            elif k == "}alter":
+                commits.append(i)
+                in_session = False
+            elif k == "goto":
+                cursor = int(ws[1])
+            elif k in ("chk", "chkx") and in_session:
+                pass
             elif k == "ll":
-                defs_local.setdefault(int(ws[1]), []).append((i, off))
+                defs_local.setdefault(int(ws[1]), []).append((i, cursor if in_session else off))
             elif k == "gl":
                 n = int(ws[1])
                 if n in defs_global:
                     slot_defects.append((i, f"Duplicate(global {n})"))
                 else:
-                    defs_global[n] = [(i, off)]
+                    defs_global[n] = [(i, cursor if in_session else off)]
             elif k == "nd":
                 ndyn += 1
             elif k == "dl":
@@ -423,19 +440,19 @@ class Oracle:
                 elif d in defs_dyn:
                     slot_defects.append((i, f"Duplicate(dyn {d})"))
                 else:
-                    defs_dyn[d] = [(i, off)]
+                    defs_dyn[d] = [(i, cursor if in_session else off)]
             elif k in ("rf", "rb", "rg", "rd"):
                 name, toff, foff, roff, fmt = int(ws[1]), int(ws[2]), int(ws[3]), int(ws[4]), ws[5]
                 if k == "rb" and not defs_local.get(name):
                     slot_defects.append((i, f"Unknown(local {name})"))
                 else:
-                    refs.append(dict(i=i, k=k, name=name, toff=toff, foff=foff, roff=roff, fmt=fmt, loc=off))
+                    refs.append(dict(i=i, k=k, name=name, toff=toff, foff=foff, roff=roff, fmt=fmt, loc=cursor if in_session else off, ses=in_session))
             elif k == "rx":
                 tgt, foff, roff, fmt = int(ws[1]), int(ws[2]), int(ws[3]), ws[4]
-                refs.append(dict(i=i, k=k, name=tgt, toff=0, foff=foff, roff=roff, fmt=fmt, loc=off))
+                refs.append(dict(i=i, k=k, name=tgt, toff=0, foff=foff, roff=roff, fmt=fmt, loc=cursor if in_session else off, ses=in_session))
             elif k in ("c", "fin", "take", "drain"):
                 commits.append(i)
-            elif k in ("off", "buf", "reset"):
+            elif k in ("off", "buf", "reset", "ptr"):
                 pass
             else:
                 raise Unsupported(k)
@@ -515,5 +532,13 @@ class Oracle:
             else:
                 tgt = self.designated(r, c)
                 v = self.value(r, tgt, bufaddr)
-            out.append((r["loc"] - r["foff"], r["fmt"], v, r))
+            start = r["loc"] - r["foff"]
+            size = fmt_size(r["fmt"])
+            # a field overwritten by a session emission after it was patched no longer holds the reference
+            later = [(a, b) for (j, a, b) in getattr(self, "overwrites", []) if j > c and a < start + size and start < b]
+            if any(a <= start and start + size <= b for (a, b) in later):
+                r = dict(r, dead=True)          # fully covered by one later session emission
+            elif later:
+                r = dict(r, partial=True)       # partly overwritten: outside the property (fields are covered fully or not at all)
+            out.append((start, r["fmt"], v, r))
         return out
